@@ -25,7 +25,7 @@ const c21hangMarker = "VERIF-C21-HANG-EXIT"
 
 // coarseClass reduces the shape class of a case to the dimension that matters
 // for a finding: all lengths below n are one class, all Variant shapes are one
-// class, element statuses are dropped. (The full class and script of the first
+// class, all notification payloads are one class, element statuses are dropped. (The full class and script of the first
 // failing case are in the detail and the replay value.)
 func coarseClass(class string) string {
 	var out []string
@@ -40,6 +40,10 @@ func coarseClass(class string) string {
 			out = append(out, "len>n")
 		case strings.HasPrefix(p, "variant="):
 			out = append(out, "variant")
+		case strings.HasPrefix(p, "payload="):
+			out = append(out, "payload")
+		case strings.HasPrefix(p, "acks="):
+			out = append(out, "acks")
 		default:
 			out = append(out, p)
 		}
@@ -159,14 +163,16 @@ func runC21() {
 		}
 	}
 	if len(fatalClasses) > 0 {
-		r.Capped("after a case killed a worker process, the remaining cases of the same (operation, service, response class) were not run (counted as not_judged): " + strings.Join(fatalClasses, "; "))
+		r.Capped("after a case killed a worker process, the remaining cases of the same (service, response class) were not run (counted as not_judged): " + strings.Join(fatalClasses, "; "))
 	}
 	r.Set("operations", len(ops))
 	r.Set("response_types", len(respTypes))
 	r.Finish()
 }
 
-func fatalClass(c c21case) string { return c.Op + "|" + c.Svc + "|" + coarseClass(c.Class) }
+// fatalClass: cases of the same scripted service and shape class as a case that killed a
+// worker are not run again (whatever the operation: the signature has no operation either).
+func fatalClass(c c21case) string { return c.Svc + "|" + coarseClass(c.Class) }
 
 func tail(s string, n int) string {
 	if len(s) > n {
